@@ -27,7 +27,7 @@ def units(tier):
     for greedy, warm in ((False, False), (True, True)):
         runs.append(dict(solver='GramCD', datafit='Quadratic', penalty='L1', X='corr32', max_iter=2, greedy_cd=greedy,
                          warm=warm, fit_intercept=False))
-    for pen, fi in (('L1', False), ('L1', True), ('WeightedL1', True)):
+    for pen, fi in ((('L1', False), ('L1', True)) if q else (('L1', False), ('L1', True), ('WeightedL1', True))):
         runs.append(dict(solver='ProxNewton', datafit='Quadratic', penalty=pen, X='corr32', max_iter=1, max_pn_iter=1, p0=2,
                          fit_intercept=fi, ws_strategy='subdiff', warm=False))
     for c in runs:
